@@ -34,14 +34,14 @@ func PlanFor(prop, tier string) (*Plan, error) {
 		p.Monitors = func() []Monitor { return []Monitor{NewC04()} }
 		p.Rule = "same enumeration; at every settlement each bidder's payment (reservation minus refund read off the bank transfers) is bounded by P*q <= paid < P*q + #matched bids and by the reservation, losers get everything back, P* never exceeds a matched bid's limit; every accepted fixed-price bid is checked against its rounding bound; non-trivial = distinct (P*, quantity, paid, matched bids, reserved) winner cases and distinct fixed bids"
 	case "C05":
-		p.Scenarios = append(bookScenarios(tier), S1b(tier, "3", true), S1b(tier, "0.5", false), S2b(tier, 2, false), S3(tier, false))
+		p.Scenarios = append(bookScenarios(tier), S1b(tier, "3", true), S1b(tier, "0.5", false), S2b(tier, 2, false), S3(tier, false), S3x(tier), S3e(tier))
 		if !quick {
 			p.Scenarios = append(p.Scenarios, S1a(tier, true), S2a(tier, false))
 		}
 		p.Monitors = func() []Monitor { return []Monitor{NewC05()} }
 		p.Rule = "same enumeration; every accepted fixed-price bid is checked against the cap and remainder of the pre-state, every settlement against cap (as of settlement), request at the clearing price and offered amount; non-trivial = distinct (received, cap, price) cases"
 	case "C06":
-		p.Scenarios = []*Scenario{S1b(tier, "3", true), S1b(tier, "0.5", false), S1a(tier, true), S1p(tier)}
+		p.Scenarios = []*Scenario{S1b(tier, "3", true), S1b(tier, "0.5", false), S1a(tier, true), S1p(tier), S3x(tier), S3e(tier)}
 		if !quick {
 			p.Scenarios = append(p.Scenarios, S1b(tier, "0.333333333333333333", true), S1b(tier, "1", false), S1a(tier, false))
 		}
@@ -62,7 +62,7 @@ func PlanFor(prop, tier string) (*Plan, error) {
 		p.Monitors = func() []Monitor { return []Monitor{NewC12()} }
 		p.Rule = "cancel attempted by the auctioneer, another auctioneer and a bidder on every auction in every status at every instant relative to its start (including auctions created already open); decision compared with signer = auctioneer and status = waiting; effects checked on acceptance; non-trivial = distinct (signer class, status, position to start, state) decisions"
 	case "C09":
-		p.Scenarios = vestingScenarios(tier)
+		p.Scenarios = append(vestingScenarios(tier), S1a(tier, true))
 		p.Monitors = func() []Monitor { return []Monitor{NewC09()} }
 		p.Rule = "schedules x proceeds x block patterns: fixed-price auction at price 1 so that one or two paying-denominated bids produce any proceeds in the grid; every subset of release instants hit exactly / skipped / overshot; the split at settlement is compared with floor(proceeds x weight) / remainder-to-last in exact rationals and every block with the instalments due and unreleased at its start; non-trivial = distinct (proceeds, weights) splits and distinct (state, due set, time) releases"
 	case "C11":
@@ -86,6 +86,7 @@ func PlanFor(prop, tier string) (*Plan, error) {
 			S2a(tier, false).withBudget(lite, "-lite").withProbes(false),
 			S3(tier, true).withBudget(Budget{"bid": 1, "mod": 1, "block": 2, "update": 0, "create": 1}, "-lite").withProbes(false),
 			S1p(tier),
+			S3x(tier).withBudget(Budget{"bid": 2, "block": 1, "allow": 0, "update": 0}, "-lite").withProbes(false),
 		}
 		if !quick {
 			mid := Budget{"bid": 2, "allow": 2, "update": 1, "mod": 1, "block": 3, "tick": 1, "cancel": 1}
@@ -101,7 +102,7 @@ func PlanFor(prop, tier string) (*Plan, error) {
 		p.Monitors = func() []Monitor { return []Monitor{NewC18()} }
 		p.Rule = "in every state of the lifecycle and multi-auction scenarios below the stated budgets, every message type is delivered with a field alphabet that replaces one field at a time (thorough: every pair of fields) by invalid and boundary values (bad address, zero/negative price, zero/negative amount, invalid/equal/third denom, end<=start, end<now, 100/101 instalments, weights != 1, unordered or too-early releases, rounds 30/31, rate 0, unknown auction/bid id, wrong kind, wrong signer/authority, insufficient funds); each decision is compared in both directions with the reference, and every rejection with an unchanged store dump, balances and community pool; non-trivial = distinct (message kind, reference reason, probe, field values) decisions"
 	case "C19":
-		p.Scenarios = []*Scenario{S3(tier, false).withRejectsTerminal(), S3x(tier)}
+		p.Scenarios = []*Scenario{S3(tier, false).withRejectsTerminal(), S3x(tier), S3e(tier)}
 		if !quick {
 			p.Scenarios = append(p.Scenarios, S3(tier, true).withRejectsTerminal())
 		}
@@ -123,15 +124,16 @@ func PlanFor(prop, tier string) (*Plan, error) {
 			S3(tier, false).withBudget(Budget{"bid": 2, "mod": 1, "block": 3, "update": 0, "create": 1, "cancel": 1}, "-lite"),
 			S2e(tier).withBudget(Budget{"bid": 2, "mod": 0, "block": 4, "update": 0}, "-lite"),
 			S1a(tier, true).withBudget(lite, "-lite"),
+			S3e(tier).withBudget(Budget{"bid": 3, "block": 3}, "-lite"),
 		}
 		if !quick {
-			p.Scenarios = []*Scenario{S3(tier, false), S2e(tier), S1a(tier, true), S2a(tier, false), S3x(tier)}
+			p.Scenarios = []*Scenario{S3(tier, false), S2e(tier), S1a(tier, true), S2a(tier, false), S3x(tier), S3e(tier)}
 		}
 		deep := !quick
 		p.Monitors = func() []Monitor { return []Monitor{NewC15(deep)} }
 		p.Rule = "at every distinct module state of the multi-auction, early-release batch and fixed lifecycle scenarios: ExportGenesis -> JSON -> Validate; wipe the module store on a branch and InitGenesis; compare auctions, bids, allow-lists, instalments, counters and params byte by byte; then run original and re-imported branch in lock-step over every single op of the scenario menu, every pair (thorough: triple) of later block instants and bid-then-block sequences, comparing decisions, the seven collections and balances after every step; non-trivial = distinct exported states holding at least one auction"
 	case "C10":
-		p.Scenarios = []*Scenario{S1a(tier, true).withMsgAddAllow(), S2a(tier, false).withMsgAddAllow(), S3(tier, false).withMsgAddAllow()}
+		p.Scenarios = []*Scenario{S1a(tier, true).withMsgAddAllow(), S2a(tier, false).withMsgAddAllow(), S3(tier, false).withMsgAddAllow(), S1b(tier, "3", true).withMsgAddAllow(), S2b(tier, 0, true).withMsgAddAllow()}
 		p.Monitors = func() []Monitor { return []Monitor{NewC10()} }
 		p.Rule = "in every explored state MsgAddAllowedBidder{auction, bidder = signer, max} is delivered through the application's message router for every auction and every bidder incl. an outsider; it must be rejected and the allow-list must be byte-identical afterwards; no other message may change the allow-list; every accepted bid's signer is on the list in the pre-state and every stored bid's bidder is listed in every state; non-trivial = distinct (auction status, listed?, signer, state) deliveries. The process links the application like cmd/fundraisingd does (it imports app, nothing from testutil / simulation)."
 		p.Post = c10Binary
